@@ -14,6 +14,7 @@ from .rules import ties as ti
 from .rules import gregory as gr
 from .rules import meekrules as mk
 from .rules import quota as qt
+from .rules import names as nm
 
 NOT_BEHAVIOUR = 'decides the listed structural clauses (necessary conditions); does not decide the behaviour itself'
 
@@ -39,7 +40,7 @@ prop('C09',
 
 prop('C01',
      [('R00', cf.r00_helper_semantics), ('R01', cf.r01_total_sweep), ('R02', cf.r02_elect_sites), ('R03', bt.r03_batch_cap), ('R03b', bt.r03b_defeat_remaining), ('R03c', bt.r03c_single_defeat_guard), ('R04', lp.r04_loops), ('R05', cf.r05_status_ownership),
-      ('R38', rr.r38_first_and_last_action)],
+      ('R38', rr.r38_first_and_last_action), ('R51', nm.r51_no_unbound_names)],
      'Static analysis of /repo source over the count() of every registered rule class (CFG path rules with a small '
      'path-sensitive fact domain, candidate-derivation dataflow): every path to the end of count() completes a total '
      'elect-or-defeat sweep; every elect site is justified by a quota test, a seat guard or a pending receiver; every batch '
@@ -48,7 +49,7 @@ prop('C01',
      'Election.count runs postCheck after the end action. ' + NOT_BEHAVIOUR,
      ['when count() returns nobody is hopeful (R01)', 'nobody elected without quota or seat guard (R02)',
       'batch exclusions capped and duplicate-free (R03)', 'remaining hopefuls are defeated only when the seats are filled (R03b)', 'every loop has a variant; every main-loop iteration makes progress (R04)',
-      'only hopefuls/pendings are elected or defeated; withdrawn never (R05)', 'postCheck after the end action (R38)'],
+      'only hopefuls/pendings are elected or defeated; withdrawn never (R05)', 'postCheck after the end action (R38)', 'no unbound local or free variable on the count path (R51)'],
      ['"exactly min(seats, electable) winners" as a number'])
 
 prop('C20',
